@@ -286,4 +286,7 @@ func TestC03(t *testing.T) {
 	forCases(n/6, 32, "s", func(i int, r *rng, id string) {
 		bubble(t, "C03", id, func() { c03Crash(r, id) })
 	})
+	// node-level histories around one member's suspicion (stale and current claims, timer expiry): a
+	// running suspicion ends only by refutation, by a current dead claim, or by its own expiry
+	forCases(envInt("VERIF_N", 2000)/4, 33, "h", func(i int, r *rng, id string) { timerHistory("C03", r, id) })
 }
